@@ -226,8 +226,12 @@ impl<'a> StructureScanState<'a> {
             self.result.files.push(path.to_path_buf());
         }
 
+        let Some(parent) = path.parent() else {
+            return;
+        };
+
         // Count for parent directory (if not excluded)
-        if !is_count_excluded && let Some(parent) = path.parent() {
+        if !is_count_excluded {
             let parent_stats = self
                 .dir_entries
                 .entry(parent.to_path_buf())
@@ -236,9 +240,11 @@ impl<'a> StructureScanState<'a> {
                     ..Default::default()
                 });
             parent_stats.file_count += 1;
-
-            self.check_allowlist_violations(path, parent, abs_path);
         }
+
+        // Placement applies to every visible file: count_exclude only keeps a file out of
+        // the quotas (as for directories)
+        self.check_allowlist_violations(path, parent, abs_path);
     }
 
     fn check_allowlist_violations(&mut self, path: &Path, parent: &Path, abs_path: &Path) {
